@@ -188,8 +188,9 @@ Fixpoint state_before (cf : config) (s : state) (pend : option (N * N * bool * l
 Definition agree (c : case) : bool := replay_h (hidden c) (cfg c) init None (events c).
 
 (* ------------------------------------------------------------------ monitor: trace-only ledger *)
-Record mstat := mkMS { ms_holder : option N; ms_att : N; ms_fin : bool; ms_dead : bool }.
-#[export] Instance eta_ms : Settable _ := settable! mkMS <ms_holder; ms_att; ms_fin; ms_dead>.
+Record mstat := mkMS { ms_holder : option N; ms_att : N; ms_fin : bool; ms_dead : bool;
+                       ms_release : option Z (* deferred until a scan whose clock has reached this time *) }.
+#[export] Instance eta_ms : Settable _ := settable! mkMS <ms_holder; ms_att; ms_fin; ms_dead; ms_release>.
 
 Record chled := mkCL {
   l_t : N; l_c : N; l_eph : bool; l_paused : bool;
@@ -241,7 +242,7 @@ Definition upd_tl (g : ledger) (t : N) (f : tled -> tled) : ledger :=
   g <| g_tp ::= map (fun x => if tl_id x =? t then f x else x) |>.
 
 Definition ms_get (l : list (N * mstat)) (id : N) : mstat :=
-  match find (fun x => fst x =? id) l with Some (_, m) => m | None => mkMS None 0 false false end.
+  match find (fun x => fst x =? id) l with Some (_, m) => m | None => mkMS None 0 false false None end.
 Definition ms_set (l : list (N * mstat)) (id : N) (m : mstat) : list (N * mstat) :=
   (id, m) :: filter (fun x => negb (fst x =? id)) l.
 
@@ -262,7 +263,7 @@ Definition snap_chan (ts : list tsnap) (t c : N) : option csnap :=
 
 (* release every message held on a channel by consumer-independent discard *)
 Definition discard_all (cl : chled) : chled :=
-  cl <| l_msgs ::= map (fun x => (fst x, (snd x) <| ms_holder := None |> <| ms_dead := true |>)) |>
+  cl <| l_msgs ::= map (fun x => (fst x, (snd x) <| ms_holder := None |> <| ms_dead := true |> <| ms_release := None |>)) |>
      <| l_owed := [] |>.
 
 Definition mon_op (g : ledger) (o : op) (r : resp) : ledger :=
@@ -270,15 +271,21 @@ Definition mon_op (g : ledger) (o : op) (r : resp) : ledger :=
   match o, r with
   | OCreateTopic t eph, ROk => ens_tl g t eph
   | OCreateChan t c teph ceph _, ROk => ens_cl g t c teph ceph
-  | OPub t teph ids bytes _ _, ROk =>
+  | OPub t teph ids bytes defer now, ROk =>
       let g := ens_tl g t teph in
       let g := upd_tl g t (fun x => (x <| tl_pubcount ::= N.add (N.of_nat (length ids)) |> <| tl_pubbytes ::= N.add bytes |>)
                                      <| tl_pending ::= fun l => if tl_paused x then ids ++ l else l |>) in
       (* owed to every channel that exists on the topic now *)
       let paused := match find_tl g t with Some tl => tl_paused tl | None => false end in
       g <| g_ch ::= map (fun cl => if l_t cl =? t
-                                   then cl <| l_owed ::= app ids |>
-                                           <| l_recv_since ::= N.add (if paused then 0 else N.of_nat (length ids)) |>
+                                   then (cl <| l_owed ::= app ids |>
+                                            <| l_recv_since ::= N.add (if paused then 0 else N.of_nat (length ids)) |>)
+                                        <| l_msgs ::= fun ms =>
+                                             (* a deferred publish handed over by a running pump is held back on
+                                                every channel until its delay has elapsed *)
+                                             if (negb paused) && negb (defer =? 0)%Z
+                                             then fold_left (fun ms id => ms_set ms id ((ms_get ms id) <| ms_release := Some (now + defer)%Z |>)) ids ms
+                                             else ms |>
                                    else cl) |>
   | OConnect k _, ROk => g <| g_kl ::= cons (mkKL k true None 0%Z false 0 0 0) |>
   | OSub k t c teph ceph _, ROk =>
@@ -303,6 +310,8 @@ Definition mon_op (g : ledger) (o : op) (r : resp) : ledger :=
                                    && negb (ms_fin st) && (att =? ms_att st + 1)) g in
                   (* C08: a discarded message is never delivered afterwards *)
                   let g := flag 8 (negb (ms_dead st)) g in
+                  (* C04: a deferred message is not delivered before a scan whose clock reached its release time *)
+                  let g := flag 4 (match ms_release st with None => true | Some _ => false end) g in
                   (* C03: RDY window, CLS, pause *)
                   let g := flag 3 (kl_alive kl && negb (kl_closing kl) && negb (l_paused cl)
                                    && (outstanding cl k <? kl_rdy kl)%Z) g in
@@ -339,7 +348,7 @@ Definition mon_op (g : ledger) (o : op) (r : resp) : ledger :=
           end
       | None => g
       end
-  | OReq k id _ _, _ =>
+  | OReq k id delay now, _ =>
       match find_kl g k with
       | Some kl =>
           match kl_sub kl with
@@ -351,7 +360,8 @@ Definition mon_op (g : ledger) (o : op) (r : resp) : ledger :=
                   match r with
                   | ROk =>
                       let g := flag 2 holds g in
-                      let g := upd_cl g t c (fun cl => cl <| l_msgs := ms_set (l_msgs cl) id (st <| ms_holder := None |>) |>) in
+                      let g := upd_cl g t c (fun cl => cl <| l_msgs := ms_set (l_msgs cl) id
+                                               ((st <| ms_holder := None |>) <| ms_release := if (delay =? 0)%Z then None else Some (now + delay)%Z |>) |>) in
                       upd_kl g k (fun x => x <| kl_req ::= N.succ |>)
                   | RFailed => (flag 2 (negb holds) g) <| g_prev_failed := true |>
                   | _ => g
@@ -409,6 +419,11 @@ Definition mon_op (g : ledger) (o : op) (r : resp) : ledger :=
                | None => g
                end in
       upd_kl g k (fun x => x <| kl_alive := false |>)
+  | OScanDeferred t c now, ROk =>
+      upd_cl g t c (fun cl => cl <| l_msgs ::= map (fun x => match ms_release (snd x) with
+                                                             | Some rel => if (rel <=? now)%Z then (fst x, (snd x) <| ms_release := None |>) else x
+                                                             | None => x
+                                                             end) |>)
   | OPauseChan t c p, ROk => upd_cl g t c (fun cl => cl <| l_paused := p |>)
   | OPauseTopic t p _, ROk => upd_tl g t (fun x => (x <| tl_paused := p |>) <| tl_pending ::= fun l => if p then l else [] |>)
   | OEmptyTopic t, ROk =>
@@ -568,7 +583,7 @@ Definition mon_after (prev : option event) (g : ledger) (ts : list tsnap) (ks : 
 (* restart: consumers are gone; nothing is held; per-lifetime counters restart; attempts
    and finished status persist *)
 Definition mon_restart (g : ledger) : ledger :=
-  let g := g <| g_ch ::= map (fun cl => cl <| l_msgs ::= map (fun x => (fst x, (snd x) <| ms_holder := None |>)) |>
+  let g := g <| g_ch ::= map (fun cl => cl <| l_msgs ::= map (fun x => (fst x, (snd x) <| ms_holder := None |> <| ms_release := None |>)) |>
                                            <| l_fincount := 0 |> <| l_emptied := 0 |> <| l_clients := [] |>)
                          |> in
   let g := g <| g_ch ::= filter (fun cl => negb (l_eph cl)) |> in
